@@ -16,6 +16,7 @@ STRATA = [
     ("rational", 500, 10000),
     ("max-iter", 500, 10000),
     ("ipm-config", 300, 6000),
+    ("scale", 1, 10),
     ("suite", 0, 1),
 ]
 REQUIRED_EVENTS = {"any": ["lp.simplex.judged", "lp.ipm.judged", "lp.simplex.max-iter-reported"]}
@@ -42,6 +43,17 @@ def _coef(rng):
 
 
 def gen(stratum, rng, tier):
+    if stratum == "scale":
+        # a hundred variables and more: integer LP built around a planted complementary primal / dual pair, so the optimum
+        # value is known exactly without an oracle; solved with the default limits (max_iter is the caller's, 100 000)
+        n = rng.randint(105, 130)
+        m = rng.randint(60, 75)
+        A = [[rng.choice([0, 0, 1, 1, 2, 3, -1, -2]) for _ in range(n)] for _ in range(m)]
+        xs = [rng.randint(1, 6) if rng.random() < 0.35 else 0 for _ in range(n)]
+        ys = [rng.randint(1, 5) if rng.random() < 0.5 else 0 for _ in range(m)]
+        b = [sum(a * x for a, x in zip(A[i], xs)) + (0 if ys[i] else rng.randint(1, 9)) for i in range(m)]
+        c = [-sum(A[i][j] * ys[i] for i in range(m)) + (0 if xs[j] else rng.randint(1, 9)) for j in range(n)]
+        return {"scale": True, "c": c, "A": A, "b": b, "opt": sum(cj * x for cj, x in zip(c, xs)), "x": xs}
     if stratum == "suite":
         return {"suite": SUITE_FILES}
     n = rng.randint(1, 4)
@@ -157,6 +169,25 @@ def run(case, obs):
 
     if "suite" in case:
         return run_suite(case, obs)
+    if case.get("scale"):
+        c, A, b, opt = case["c"], case["A"], case["b"], case["opt"]
+        _mon.drain()
+        r = call(obs, _simplex.solve_lp, c, A, b, minimize=True, what="solve_lp[scale]", budget=3_000_000_000)
+        for rec in _mon.drain():
+            if rec["fn"] == "solve_lp":
+                _mon.judge_simplex(rec, obs)  # certificate part (feasible point, objective == c.x); size is above the exact oracle
+        obs.nontrivial = True
+        if not is_crash(r):
+            obs.event("lp.scale.judged")
+            obs.outcome("simplex-scale:" + r.status.name)
+            # min c.x over Ax <= b, x >= 0 with planted x*, y* >= 0, complementary: c + A'y* >= 0 (= 0 where x*_j > 0), rows
+            # tight where y*_i > 0  =>  x* is optimal and the optimum is c.x*
+            if r.status.name != "OPTIMAL":
+                obs.violate("lp.scale.status", f"{len(c)} variables x {len(b)} rows with a planted optimal pair (optimum {opt}): status "
+                            f"{r.status.name} after {r.iterations} iterations with default limits")
+            elif abs(r.objective - opt) > 1e-6 * (1 + abs(opt)):
+                obs.violate("lp.scale.objective", f"{len(c)} x {len(b)}: OPTIMAL with objective {r.objective}, planted optimum {opt}")
+        return
 
     c, A, b = case["c"], case["A"], case["b"]
     kind = case.get("container", "list")
